@@ -84,7 +84,7 @@ class ConstantLengthTupleProvider(LoaderProvider, DumperProvider):
         def dt_sc_loader(data):
             if isinstance(data, CollectionsMapping):
                 raise ExcludedTypeLoadError(tuple, Mapping, data)
-            if type(data) is str:
+            if isinstance(data, str):
                 raise ExcludedTypeLoadError(tuple, str, data)
 
             try:
@@ -192,7 +192,7 @@ class ConstantLengthTupleProvider(LoaderProvider, DumperProvider):
         def dt_disable_sc_loader(data):
             if isinstance(data, CollectionsMapping):
                 raise ExcludedTypeLoadError(tuple, Mapping, data)
-            if type(data) is str:
+            if isinstance(data, str):
                 raise ExcludedTypeLoadError(tuple, str, data)
 
             try:
